@@ -42,9 +42,18 @@ type Ctx struct {
 	prog *ssa.Program
 	spkg *ssa.Package
 
+	Deep   bool                     // thorough tier: larger folding domains
 	decls  map[string]*ast.FuncDecl // "(*list).Insert", "parseVal"
 	e3     *E3
 	goVers string
+}
+
+// depth picks the folding bound for the tier.
+func (c *Ctx) depth(quick, thorough int) int {
+	if c.Deep {
+		return thorough
+	}
+	return quick
 }
 
 func loadCtx(repo string, cfg BuildCfg, r *Report) (*Ctx, error) {
